@@ -105,6 +105,9 @@ func (b *Backend) Destroy() {
 
 // ---------------------------------------------------------------- outcome capture
 
+// the error an IterateDocs consumer of the harness returns to stop the iteration
+var errConsumer = errors.New("harness: consumer error")
+
 func errClass(err error) string {
 	switch {
 	case errors.Is(err, clover.ErrCollectionExist):
@@ -119,6 +122,8 @@ func errClass(err error) string {
 		return "ErrDocumentNotExist"
 	case errors.Is(err, clover.ErrDuplicateKey):
 		return "ErrDuplicateKey"
+	case errors.Is(err, errConsumer):
+		return "consumer"
 	}
 	return "other"
 }
@@ -810,6 +815,24 @@ func (x *Exec) Run(b *Backend, e E, genIds [][]byte) E {
 			q := x.gammaQuery(e)
 			fp := queryFingerprint(q)
 			visits, err := x.forEachStop(db, q, toInt(e["j"]))
+			res["val"] = visits
+			res["qfp"] = []interface{}{fp, queryFingerprint(q)}
+			return err
+		case "IterateDocs":
+			// the consumer returns an error at its j-th call (j = 0: never); the criteria are
+			// not normalised by this entry point
+			q := x.gammaQuery(e)
+			fp := queryFingerprint(q)
+			visits := make([]interface{}, 0)
+			j, n := toInt(e["j"]), 0
+			err := db.IterateDocs(q, func(d *document.Document) error {
+				n++
+				visits = append(visits, x.alphaDoc(d))
+				if j > 0 && n >= j {
+					return errConsumer
+				}
+				return nil
+			})
 			res["val"] = visits
 			res["qfp"] = []interface{}{fp, queryFingerprint(q)}
 			return err
